@@ -129,3 +129,13 @@ Lemma firstn_app_exact {A} (a b : list A) : firstn (List.length a) (a ++ b) = a.
 Proof. rewrite firstn_app, firstn_all, Nat.sub_diag. cbn [firstn]. apply app_nil_r. Qed.
 Lemma skipn_app_exact {A} (a b : list A) : skipn (List.length a) (a ++ b) = b.
 Proof. rewrite skipn_app, skipn_all, Nat.sub_diag. reflexivity. Qed.
+
+Lemma nth_error_ext' {A} : forall (l l' : list A), (forall n, nth_error l n = nth_error l' n) -> l = l'.
+Proof.
+  induction l as [|a l IH]; intros [|b l'] H; auto.
+  - specialize (H 0%nat); discriminate.
+  - specialize (H 0%nat); discriminate.
+  - f_equal.
+    + specialize (H 0%nat). simpl in H. congruence.
+    + apply IH. intros n. apply (H (S n)).
+Qed.
